@@ -29,6 +29,7 @@ CONSTANTS Addrs = {1,2,3}
   Mode = "%s"
   Variant = "%s"
   GcAtomic = %s
+  Prims = {%s}
   MinAddr = FALSE
 VIEW View
 PROPERTY RefinesIdeal
@@ -216,19 +217,20 @@ def validate(ctx, traces, impl_idx):
 def design_level(ctx, quick):
     dump = os.path.join(ctx.tmp, "ucache")
     n = 3 if quick else 4
+    pr = "0" if quick else "0,1"        # quick: one primitive in the interleaved runs
 
-    def mc(name, mode, atomic, d, maxser):
-        r = core.tlc("UniqueCache", cfg_text=MC % (maxser, mode, "faithful", atomic, FULL), dump=d, workers=4,
+    def mc(name, mode, atomic, d, maxser, prims="0,1"):
+        r = core.tlc("UniqueCache", cfg_text=MC % (maxser, mode, "faithful", atomic, prims, FULL), dump=d, workers=4,
                      timeout=3000)
         ctx.add_tlc(name, r)
 
     def variant(v):
-        r = core.tlc("UniqueCache", cfg_text=MC % (4, "c", v, "FALSE", ""), workers=3, timeout=1500)
+        r = core.tlc("UniqueCache", cfg_text=MC % (4, "c", v, "FALSE", "0", ""), workers=3, timeout=1500)
         ctx.add_tlc("sanity:" + v, r, require_ok=False, count_states=False)
         if r.ok or "RefinesIdeal is violated" not in r.out:
             raise core.MachineryError("broken variant %s of UniqueCache was not rejected by TLC:\n%s" % (v, r.out[-1500:]))
-    jobs = {"c": (mc, ("MC_UniqueCache(C cache, 3 addresses, %d objects, gc phases interleaved)" % n, "c", "FALSE", None, n)),
-            "py": (mc, ("MC_UniqueCache(Python cache, 3 addresses, %d objects)" % n, "py", "FALSE", None, n)),
+    jobs = {"c": (mc, ("MC_UniqueCache(C cache, 3 addresses, %d objects, gc phases interleaved)" % n, "c", "FALSE", None, n, pr)),
+            "py": (mc, ("MC_UniqueCache(Python cache, 3 addresses, %d objects)" % n, "py", "FALSE", None, n, pr)),
             "dump": (mc, ("MC_UniqueCache(C cache, atomic collection, 3 objects)", "c", "TRUE", dump, 3)),
             "removealways": (variant, ("removealways",)), "nodeadcheck": (variant, ("nodeadcheck",))}
     if not quick:
